@@ -309,13 +309,15 @@ func perturbLines(r R, l []string) []string {
 
 func genPre(r R, allowCORSNames bool) http.Header {
 	h := http.Header{}
-	switch r.Intn(6) {
+	switch r.Intn(7) {
 	case 0:
 		h["Vary"] = []string{"Accept-Encoding"}
 	case 1:
 		h["Vary"] = []string{"Cookie", "Accept"}
 	case 2:
 		h["Vary"] = []string{}
+	case 3:
+		h["Vary"] = []string{r.pick([]string{"X-Forwarded-Origin", "X-Origin-Region", "Origin-Agent-Cluster"}), "Accept-Language"}
 	}
 	if r.chance(1, 4) {
 		h["X-Pre"] = []string{"1"}
